@@ -153,14 +153,15 @@ class Interp:
                 mod = f.func.module
                 break
             f = f.parent
-        v = self.resolve_global(e.id, mod)
-        if v is _MISSING and self.pure:
-            # a contract clause names a local that the code has renamed since the committed baseline (see verify.local_alias)
+        if self.pure:
+            # a contract clause names a local that the code has renamed since the committed baseline (see verify.local_alias);
+            # looked up before globals and builtins: a local may bear a builtin's name (`map`)
             al = getattr(self, 'local_alias', None) or {}
             nm = e.id[len('final_'):] if e.id.startswith('final_') else e.id
             if nm in al and al[nm] != nm:
                 import ast as _ast
                 return self.ev_Name(_ast.copy_location(_ast.Name(id=('final_' if e.id.startswith('final_') else '') + al[nm], ctx=_ast.Load()), e), fr)
+        v = self.resolve_global(e.id, mod)
         if v is _MISSING:
             if self.pure:
                 raise Unsupported('unknown name %s in contract expression' % e.id)
